@@ -34,6 +34,7 @@ func main() {
 	repo := flag.String("repo", "/repo/rolling-shutter", "repository module root")
 	hooks := flag.String("hooks", "/verif/hooks", "hook files root")
 	out := flag.String("out", "/verif/build/overlay", "output directory")
+	flag.StringVar(&simDir, "sim", simDir, "harness module directory")
 	flag.Parse()
 
 	if err := run(*repo, *hooks, *out); err != nil {
@@ -41,6 +42,8 @@ func main() {
 		os.Exit(2)
 	}
 }
+
+var simDir = "/verif/sim"
 
 func run(repo, hooks, out string) error {
 	if err := os.RemoveAll(out); err != nil {
@@ -61,6 +64,18 @@ func run(repo, hooks, out string) error {
 	if err != nil {
 		return err
 	}
+	// dependencies whose map iteration order leaks into messages (shlib puredkg builds the
+	// apology / accusation lists by ranging over maps): same rewrite, but with a helper that is
+	// added to the package itself (canonical sorted order only, no hook)
+	// (loaded from the harness module, where shlib is replaced by a writable copy: files in the
+	// module cache cannot be overlaid)
+	cfgExtra := *cfg
+	cfgExtra.Dir = simDir
+	extra, err := packages.Load(&cfgExtra, "github.com/shutter-network/shutter/shlib/puredkg")
+	if err != nil {
+		return err
+	}
+	extraDirs := map[string]string{}
 	nsites := 0
 	publishHooked := false
 	var siteList []string
@@ -185,6 +200,60 @@ func run(repo, hooks, out string) error {
 		}
 	}
 
+	for _, p := range extra {
+		if len(p.Errors) > 0 {
+			return fmt.Errorf("package %s: %v", p.PkgPath, p.Errors[0])
+		}
+		for i, f := range p.Syntax {
+			fn := p.CompiledGoFiles[i]
+			if strings.HasSuffix(fn, "_test.go") {
+				continue
+			}
+			changed := false
+			ast.Inspect(f, func(n ast.Node) bool {
+				rs, ok := n.(*ast.RangeStmt)
+				if !ok {
+					return true
+				}
+				tv, ok := p.TypesInfo.Types[rs.X]
+				if !ok {
+					return true
+				}
+				if _, isMap := tv.Type.Underlying().(*types.Map); !isMap {
+					return true
+				}
+				rs.X = &ast.CallExpr{Fun: ast.NewIdent("verifSortedRange"), Args: []ast.Expr{rs.X}}
+				changed = true
+				nsites++
+				siteList = append(siteList, p.PkgPath+":"+fmt.Sprint(p.Fset.Position(rs.Pos()).Line))
+				return true
+			})
+			if !changed {
+				continue
+			}
+			var buf bytes.Buffer
+			if err := format.Node(&buf, p.Fset, f); err != nil {
+				return err
+			}
+			dst := filepath.Join(out, "_deps", p.Name, filepath.Base(fn))
+			if err := os.MkdirAll(filepath.Dir(dst), 0o755); err != nil {
+				return err
+			}
+			if err := os.WriteFile(dst, buf.Bytes(), 0o644); err != nil {
+				return err
+			}
+			replace[fn] = dst
+			extraDirs[filepath.Dir(fn)] = p.Name
+		}
+	}
+	for dir, name := range extraDirs {
+		helper := filepath.Join(out, "_deps", name, "zz_verif_sorted_range.go")
+		src := "package " + name + sortedRangeHelper
+		if err := os.WriteFile(helper, []byte(src), 0o644); err != nil {
+			return err
+		}
+		replace[filepath.Join(dir, "zz_verif_sorted_range.go")] = helper
+	}
 	if !publishHooked {
 		return fmt.Errorf("(*P2PNode).Publish not found: cannot install the publish hook")
 	}
@@ -236,3 +305,35 @@ func addImport(f *ast.File, path string) {
 	f.Decls = append([]ast.Decl{gd}, f.Decls...)
 	f.Imports = append(f.Imports, spec)
 }
+
+const sortedRangeHelper = `
+
+import (
+	"fmt"
+	"iter"
+	"sort"
+)
+
+// verifSortedRange iterates a map in canonical (sorted by %#v of the key) order. Injected by
+// the verification overlay so that message contents do not depend on Go's map iteration order.
+func verifSortedRange[M ~map[K]V, K comparable, V any](m M) iter.Seq2[K, V] {
+	return func(yield func(K, V) bool) {
+		keys := make([]K, 0, len(m))
+		strs := make(map[K]string, len(m))
+		for k := range m {
+			keys = append(keys, k)
+			strs[k] = fmt.Sprintf("%#v", k)
+		}
+		sort.Slice(keys, func(i, j int) bool { return strs[keys[i]] < strs[keys[j]] })
+		for _, k := range keys {
+			v, ok := m[k]
+			if !ok {
+				continue
+			}
+			if !yield(k, v) {
+				return
+			}
+		}
+	}
+}
+`
